@@ -13,7 +13,11 @@ def scenarios(seed, tier, failed):
     yield {'kind': 'race', 'via': 'append', 'timeout': 20}
     yield {'kind': 'race', 'via': 'event', 'timeout': 20}
     yield {'kind': 'iterate', 'timeout': 20}
+    yield {'kind': 'colliding', 'timeout': 30}
     yield {'kind': 'big', 'timeout': 30}
+    for via in ('event', 'attr'):
+        for k in range(1, 26):
+            yield {'kind': 'interleave', 'via': via, 'stop_at_line': k, 'timeout': 20}
     rnd = random.Random(seed)
     for _ in range(50 if tier == 'quick' else 2000):
         ops = []
@@ -176,7 +180,100 @@ def run_big(sc):
     return True, ''
 
 
+def run_interleave(sc):
+    """Thread A registers a new name (through Event or attribute access) and is parked after its k-th source line in
+    miros/event.py; meanwhile another new name is registered; A must still report the number the registry binds."""
+    import sys
+    import miros.event as ev
+    from miros.event import signals, Event
+    _n[0] += 1
+    a, b = 'C25_IL_A_%d' % _n[0], 'C25_IL_B_%d' % _n[0]
+    parked, resume = threading.Event(), threading.Event()
+    fname = ev.__file__
+    state = {'lines': 0}
+
+    def local(frame, event, arg):
+        if event == 'line' and frame.f_code.co_filename == fname:
+            state['lines'] += 1
+            if state['lines'] == sc['stop_at_line'] and not parked.is_set():
+                parked.set()
+                resume.wait(3.0)
+        return local
+
+    def tracer(frame, event, arg):
+        return local if frame.f_code.co_filename == fname else None
+    out, errors = [], []
+
+    def worker():
+        sys.settrace(tracer)
+        try:
+            out.append(Event(signal=a).signal if sc['via'] == 'event' else getattr(signals, a))
+        except Exception as ex:
+            errors.append(repr(ex))
+        finally:
+            sys.settrace(None)
+    t = threading.Thread(target=worker, daemon=True)
+    t.start()
+    reached = parked.wait(1.0)
+    if reached:
+        # the other registration may have to wait for A's critical section: give it a moment, then let A go on
+        t2 = threading.Thread(target=lambda: signals.append(b), daemon=True)
+        t2.start()
+        t2.join(0.2)
+        resume.set()
+        t2.join(3.0)
+    resume.set()
+    t.join(3.0)
+    if errors:
+        return False, 'registering %s raised %s' % (a, errors[0]), 'SignalSource.append'
+    if not out or out[0] != signals.get(a):
+        return False, 'the thread registering %s was told number %r, the registry binds %r (another name was registered ' \
+                      'while it was parked after line %d)' % (a, out[0] if out else None, signals.get(a), sc['stop_at_line']), \
+            'SignalSource.append'
+    nums = list(signals.values())
+    if len(set(nums)) != len(nums):
+        return False, 'two names share a number', 'SignalSource.append'
+    return True, ''
+
+
+def run_colliding(sc):
+    """signal names that are also attributes of the registry object or of dicts: registering them must not disturb
+    the registry (they are ordinary keys)"""
+    from miros.event import signals, Event
+    builtin = list(signals.keys())[:10]
+    seen = dict(signals)
+    for name in ('open', 'highest_inner_signal', 'update', 'values', 'close', 'keys', 'items', 'clear', 'append',
+                 'name_for_signal', 'pop', 'last'):
+        try:
+            e = Event(signal=name)
+        except Exception as ex:
+            return False, 'Event(%r) raised %r' % (name, ex), 'Event.__init__'
+        if e.signal_name != name or e.signal != signals[name]:
+            return False, 'Event(%r) reports (%r, %r), the registry binds %r' % (name, e.signal_name, e.signal, signals[name]), \
+                'Event.__init__'
+        try:
+            back = signals.name_for_signal(signals[name])
+            again = Event(signal=signals[name])
+        except Exception as ex:
+            return False, 'after registering %r: %r' % (name, ex), 'SignalSource.append'
+        if back != name or again.signal_name != name:
+            return False, 'name_for_signal / Event by number disagree for %r' % name, 'name_for_signal'
+        for k, v in seen.items():
+            if signals.get(k) != v:
+                return False, 'registering %r changed the number of %r' % (name, k), 'SignalSource.append'
+        for k in signals:
+            if signals.is_inner_signal(k) != (k in builtin):
+                return False, 'after registering %r: is_inner_signal(%r) = %r' % (name, k, signals.is_inner_signal(k)), \
+                    'is_inner_signal'
+        seen = dict(signals)
+    return True, ''
+
+
 def run(sc):
+    if sc['kind'] == 'colliding':
+        return run_colliding(sc)
+    if sc['kind'] == 'interleave':
+        return run_interleave(sc)
     if sc['kind'] == 'big':
         return run_big(sc)
     if sc['kind'] == 'iterate':
